@@ -811,6 +811,7 @@ fn corpus(p: Prop) -> Vec<(SCase, LenStyle)> {
         target: None,
         astar: None,
         query_wf: None,
+        svc: None,
     };
     let mut v = vec![];
     match p {
@@ -906,6 +907,7 @@ fn stale_link_witness(turn_restriction: bool) -> SCase {
         target: Some(4),
         astar: Some(Some(1.0)),
         query_wf: None,
+        svc: None,
     }
 }
 
